@@ -122,6 +122,16 @@ Theorem clientip_selection :
 Proof. exact clientip_selection_l. Qed.
 Print Assumptions clientip_selection.
 
+(* ... and the same through Router.Lookup / Txn.Lookup followed by Route.Handle / Route.HandleMiddleware, for direct and
+   slash-adjusted matches alike *)
+Theorem lookup_selection :
+  forall (chk : bool) (r : router) (pats : list bytes) (tab : table) (e : entry) (key : nat) (rt : route) (adj mw : bool),
+    lookup key tab = Some rt -> rt_handler rt = true ->
+    let v := (res_cip (rt_clientip rt), Some (rt_pattern rt)) in
+    run_op chk r pats tab (OLookup e key adj mw) = (tab, ObsLookup adj v v v (Some v)).
+Proof. exact lookup_selection_l. Qed.
+Print Assumptions lookup_selection.
+
 Theorem clone_preserves_view :
   forall (r : router) (c : ctx), view_of r (clone c) = view_of r c /\ view_of r (clone_with c) = view_of r c.
 Proof. exact clone_preserves_view_l. Qed.
